@@ -470,13 +470,15 @@ def s_apply_as_function(ctx):
     n1 = SObj(ir.Node, "matched1")
     n0.fields.update(domain="", attributes={}, metadata_props={}, name="n0")
     n1.fields.update(domain="custom", attributes={}, metadata_props={}, name="n1")
-    main = GraphLike([n0, n1] if kind == "main graph" else [], {})
+    n2 = SObj(ir.Node, "matched2")
+    n2.fields.update(domain="", attributes={}, metadata_props={}, name="n2")
+    main = GraphLike([n0, n1, n2] if kind == "main graph" else [], {})
     main.opset_imports = {"": SInt(v_main), "custom": SInt(v_cust)}
     main.initializers = {}
     if kind == "main graph":
         container = main
     else:
-        container = GraphLike([n0, n1], {})
+        container = GraphLike([n0, n1, n2], {})
         container.initializers = {}
         # a function has its own complete import table; a subgraph has none of its own (only what an earlier rewrite added)
         container.opset_imports = {"": SInt(v_cont), "custom": SInt(v_cust)} if kind == "function" else \
@@ -488,7 +490,8 @@ def s_apply_as_function(ctx):
     call_node.fields.update(domain="new.domain", op_type="Fused", overload="", inputs=[Tok("x")], metadata_props={}, attributes={})
     delta = SObj(rr.ReplacementSubgraph, "delta")
     match = SObj(object, "match")
-    match.fields.update(nodes=[n1, n0], outputs=[Tok("old_out")])
+    # the matcher records nodes depth-first from the root: neither graph order nor its reverse in general
+    match.fields.update(nodes=[n2, n0, n1], outputs=[Tok("old_out")])
     delta.fields.update(match=match, new_nodes=[call_node], new_outputs=[Tok("new_out")], new_initializers=[])
     fired = []
 
@@ -496,7 +499,7 @@ def s_apply_as_function(ctx):
         raise AssertionError
 
     def model_try(interp, m, g, node, verbose=None, tracer=None):
-        if node is n0 and g is container and not fired:
+        if node is n2 and g is container and not fired:
             fired.append(node)
             return delta
         return None
@@ -544,7 +547,7 @@ def s_apply_as_function(ctx):
         ctx.check("C07.as_function.apply_never_raises", False, CL)
         return
     ok = len(fns) == 1 and len(graphs) == 1 and fns[0].fields["graph"] is graphs[0]
-    ctx.check("C07.as_function.one_function_is_built_from_the_matched_nodes", ok and len(copied) == 1 and copied[0][1] == [n0, n1],
+    ctx.check("C07.as_function.one_function_is_built_from_the_matched_nodes", ok and len(copied) == 1 and copied[0][1] == [n0, n1, n2],
               CL_INIT + " — the copied nodes are the matched nodes in graph order")
     if not ok:
         return
